@@ -318,7 +318,47 @@ def directed(ctx, prefix="C03"):
                 break
 
 
+def chain_collections(ctx, n):
+    """join -> meet -> join chains on point collections with two collection axes whose elements carry moderate factors of
+    their own (the intermediate results are renormalised per element): same projective results as for the unscaled points"""
+    import geometer as g
+    rng = ctx.rng
+    for k in range(n):
+        dim = rng.choice([2, 3])
+        shape = rng.choice([(2, 2), (2, 3), (3, 1)])
+        cnt = int(np.prod(shape))
+        def pts():
+            return np.array([[float(rng.randint(-4, 4)) for _ in range(dim)] + [1.0] for _ in range(cnt)]).reshape(shape + (dim + 1,))
+        A, B, C = pts(), pts(), pts()
+        fac = lambda: np.array([rng.choice([8.0, -0.125, 0.125, -8.0, 1.0]) for _ in range(cnt)]).reshape(shape + (1,))
+        def chain(a, b, c):
+            P, Q, R = g.PointCollection(a), g.PointCollection(b), g.PointCollection(c)
+            if dim == 2:
+                x = g.meet(g.join(P, Q), g.join(P, R))          # = P
+                return x, g.join(x, Q)                          # = PQ
+            e = g.join(P, Q, R)
+            l = g.meet(e, g.join(P, Q, g.PointCollection(c + np.array([0.0, 0.0, 1.0, 0.0]))))   # = PQ
+            return l, g.join(l, R)                              # = e
+        base = call_impl(chain, A, B, C)
+        desc = f"chain dim={dim} shape={shape} A={A.tolist()} B={B.tolist()} C={C.tolist()}"
+        if base[0] != "ok":
+            continue                     # a degenerate position somewhere in the collection
+        fa, fb, fc = fac(), fac(), fac()
+        ctx.case(desc, nontrivial=True)
+        ctx.count(f"chain:{dim}d:{len(shape)}axes")
+        res = call_impl(chain, A * fa, B * fb, C * fc)
+        if res[0] != "ok":
+            ctx.disagree(f"C03:chain:raises:{res[1]}", desc + f" factors {fa.ravel().tolist()} {fb.ravel().tolist()} {fc.ravel().tolist()}",
+                         "the results of the unscaled collections", res[1:3], replay=[desc])
+            continue
+        for u, v in zip(base[1], res[1]):
+            if not same(canon(u), canon(v), 1e-7):
+                ctx.disagree("C03:chain:value", desc + f" factors {fa.ravel().tolist()} {fb.ravel().tolist()} {fc.ravel().tolist()}", str(canon(u))[:200], str(canon(v))[:200], replay=[desc])
+                break
+
+
 def correspondence(ctx):
+    chain_collections(ctx, ctx.budget(60, 800))
     rng = ctx.rng
     table = ops_table()
     n = ctx.budget(900, 15000)
